@@ -5,8 +5,8 @@ py2v.py (bytes/int subset) has no str support, so this job brings its own small,
 
   aiocoap/util/uri.py       quote_factory (its safe-set guard) and the closure `quote`
   aiocoap/util/__init__.py  quote_nonascii, hostportjoin
-  and extracts the data the quoting depends on: unreserved, sub_delims (util/uri.py), the arguments of the two
-  quote_factory(...) calls that define _quote_for_path / _quote_for_query, coap_schemes and the _ascii_lowercase
+  and extracts the data the quoting depends on: unreserved, sub_delims (util/uri.py), the arguments of the three
+  quote_factory(...) calls that define _quote_for_host / _quote_for_path / _quote_for_query, coap_schemes and the _ascii_lowercase
   table (message.py).
 
 A Python str is a list of code points (list Z); the intrinsics live in coq/Model/C16Str.v.  Anything outside the
@@ -217,12 +217,19 @@ def gen_uri_kernels(repo):
     for name in ("unreserved", "sub_delims"):
         ns[name] = const_eval(find_assign(uri, name), ns)
         if not isinstance(ns[name], str): raise Unsupported(name + " is not a str")
+    # other module-level string constants of message.py may be used by the safe-set expressions (e.g. a shared "pchar" set)
+    msg_ns = dict(ns)
+    for node in msg.body:
+        if isinstance(node, ast.Assign) and len(node.targets) == 1 and isinstance(node.targets[0], ast.Name) and not node.targets[0].id.startswith("_quote_for_"):
+            try: v = const_eval(node.value, msg_ns)
+            except Unsupported: continue
+            if isinstance(v, str): msg_ns[node.targets[0].id] = v
     safe = {}
-    for name in ("_quote_for_path", "_quote_for_query"):
+    for name in ("_quote_for_host", "_quote_for_path", "_quote_for_query"):
         call = find_assign(msg, name)
         if not (isinstance(call, ast.Call) and isinstance(call.func, ast.Name) and call.func.id == "quote_factory" and len(call.args) == 1 and not call.keywords):
             raise Unsupported("%s is no longer quote_factory(<characters>)" % name)
-        safe[name] = const_eval(call.args[0], ns)
+        safe[name] = const_eval(call.args[0], msg_ns)
         if not isinstance(safe[name], str): raise Unsupported(name + " safe characters are not a str")
     schemes = const_eval(find_assign(msg, "coap_schemes"), {})
     if not (isinstance(schemes, list) and all(isinstance(x, str) for x in schemes)): raise Unsupported("coap_schemes")
@@ -235,6 +242,7 @@ def gen_uri_kernels(repo):
     out.append("Definition unreserved : list Z := %s." % zlist(ns["unreserved"]))
     out.append("Definition sub_delims : list Z := %s." % zlist(ns["sub_delims"]))
     out.append("(* argument of quote_factory in `_quote_for_path = ...` / `_quote_for_query = ...` (message.py) *)")
+    out.append("Definition quote_for_host_chars : list Z := %s." % zlist(safe["_quote_for_host"]))
     out.append("Definition quote_for_path_chars : list Z := %s." % zlist(safe["_quote_for_path"]))
     out.append("Definition quote_for_query_chars : list Z := %s." % zlist(safe["_quote_for_query"]))
     out.append("Definition coap_schemes : list (list Z) := [%s]." % "; ".join(zlist(s) for s in schemes))
